@@ -285,7 +285,7 @@ example :
 
 /-- `Unmarshal` of the text: a well-formed one-paragraph deb822 document (`Spec.Deb822.wfPara`),
     rendered in any physical layout C07 covers (LF / CRLF, comments, padding after the colon,
-    trailing blanks, blank or tab continuation markers, empty lines around, with or without
+    ASCII or Unicode white space at line ends, blank or tab continuation markers, empty lines around, with or without
     the final newline), whose paragraph (`expectedPara`: every field's value as the reader
     returns it) carries the model, unmarshals to the record of the model's views. -/
 theorem C10_unmarshal_rendered (spec : List Req) (fs : List Field) (s : Schema) (m : DocModel)
